@@ -177,7 +177,8 @@ def public_methods() -> list[str]:
     return sorted(n for n, _ in inspect.getmembers(APIClient) if not n.startswith("_"))
 
 
-def run(framing: str, api: tuple[int, int] = (1, 10), on_from_pb: Callable[[Any, Any, Any], None] | None = None, silent: bool = False) -> dict[str, Any]:
+def run(framing: str, api: tuple[int, int] = (1, 10), on_from_pb: Callable[[Any, Any, Any], None] | None = None, silent: bool = False,
+        debug: bool | None = None, password: str | None = "pw") -> dict[str, Any]:
     """Run the sweep. Returns per-method outcomes, device-side received names per method, monitor data."""
     from aioesphomeapi import model as M
 
@@ -203,7 +204,7 @@ def run(framing: str, api: tuple[int, int] = (1, 10), on_from_pb: Callable[[Any,
                 dcfg.handlers = {n: (lambda c, m: None) for n in list(dcfg.handlers) + ["DeviceInfoRequest", "ListEntitiesRequest"]}
             dev = sim.device(dcfg)
             kw = {"noise_psk": base64.b64encode(PSK).decode()} if noise else {}
-            cli = sim.client(password="pw", keepalive=1e5, **kw)
+            cli = sim.client(password=password, keepalive=1e5, debug=debug, **kw)
             c0 = sim.call("connect", lambda: cli.connect(on_stop=sim.on_stop_cb(), login=True))
             sim.run(until=lambda: c0.done, max_time=sim.clock + 50)
             if c0.outcome != "ok":
